@@ -449,6 +449,40 @@ def trigger_stage(rep, tier, seed):
                                             "sample": {k: recs[0][k] for k in ("alg", "n", "params", "masks")}}
 
 
+def compiled_stage(rep, tier, seed, focus, prefixes):
+    """The verdicts of the (interpreted) engine traces carried over to the compiled engine: a sample of the very items
+    of this check's corpus is run interpreted and compiled without any observation; spec/CompiledTrace.tla demands the
+    same sequence of solutions / optimum / statistics."""
+    from common import run_workers_resilient, warm_jit
+    warm_jit()
+    r = random.Random(seed * 271 + 3)
+    pool = [it for it in build_items(tier, seed, focus) if it.get("limit") is None and it["cfg"].get("height", 64) >= 16]
+    r.shuffle(pool)
+    items = pool[: (600 if tier == "quick" else 8000)]
+    jobs = [{"rid": k, "runs": [{"P": it["P"], "cfg": it["cfg"], "mode": it["mode"], "var": it.get("var", 0), "cap": 4000}]}
+            for k, it in enumerate(items)]
+    res = {}
+    with Scratch("comp") as tmp:
+        for tag, jit in (("interp", False), ("comp", True)):
+            outs, killed = run_workers_resilient("rec_rewrites.py", [{"items": jobs[k::NCPU], "timeout": 60.0} for k in range(NCPU)
+                                                                     if jobs[k::NCPU]], nucs_env(jit=jit), tmp, item_timeout=90.0)
+            for o in read_ndjson(outs):
+                res.setdefault(o["rid"], {})[tag] = o["res"][0]
+            for f in outs:
+                f.unlink()
+        recs = [{"rid": k, "mode": items[k]["mode"], "interp": res[k]["interp"], "comp": res[k]["comp"]}
+                for k in range(len(items)) if len(res.get(k, {})) == 2]
+        verdicts, judged, st, tr = validate_shards("CompiledTrace", "CompiledTrace.cfg", "COMPILED_RECS", recs, tmp)
+    for rid, clause in set(map(tuple, verdicts)):
+        if clause.startswith(prefixes):
+            it = items[rid]
+            rep.fail({"P": it["P"], "cfg": it["cfg"], "clause": clause, "stage": "compiled", "run_mode": it["mode"], "var": it.get("var", -1)},
+                     f"{clause} ({it['mode']}) on {json.dumps(it['P'])[:300]} cfg={it['cfg']}")
+    rep.add(states=st, transitions=tr, traces_validated_against_impl=judged)
+    rep.cov["compiled_engine_runs_compared_with_the_validated_interpreted_runs"] = {
+        "spec": "spec/CompiledTrace.tla", "items": len(recs), "with_solutions": sum(1 for x in recs if x["interp"]["sols"])}
+
+
 def api_stage(rep, tier, seed, prefixes):
     """The public entry points agree: solve() converted at once, its arrays kept by reference, find_all(), solve_all(),
     the multiprocessing solver's find_all() (spec/ApiTrace.tla)."""
